@@ -78,6 +78,7 @@ func c12Gen(seed uint64, run int, tier string) *Case {
 			c.Cfg["badframe"] = 1
 			c.Cfg["badsize"] = int64(r.Pick(0, 1, 4, 6, -1, -2, -3, -4)) // negative: relative to msize (-1: msize+1, -2: 8*msize+1, -3: 2^32-1, -4: 2^31)
 			c.Cfg["badbody"] = int64(r.Pick(0, 0, 50, 5000))
+			c.Cfg["badtype"] = int64(r.Pick(Tclunk, Tclunk, Tversion, Tversion, Tflush, Tattach, Rclunk)) // the size rule is for every frame, whatever type it claims
 			if c.Cfg["cmsize"] < 24 {
 				c.Cfg["cmsize"] = 256
 			}
@@ -704,9 +705,18 @@ func (st *c12Sys) badFrame(sc, by *SConn, nm int64, byReply **Recvd) {
 		sz = 0x80000000
 		x.Fault("size-oversize")
 	}
-	b := []byte{byte(sz), byte(sz >> 8), byte(sz >> 16), byte(sz >> 24), Tclunk, 9, 0}
+	typ := byte(c.cfg("badtype"))
+	if typ == 0 {
+		typ = Tclunk
+	}
+	b := []byte{byte(sz), byte(sz >> 8), byte(sz >> 16), byte(sz >> 24), typ, 9, 0}
 	body := int(c.cfg("badbody"))
-	if body > 0 && sz > 7 {
+	nrecv := len(peer.Recv)
+	if typ == Tversion && sz > 13 && sz < 70000 && body > 0 {
+		// a complete, well-formed Tversion that is simply larger than the negotiated msize (its version string is long)
+		b = Encode(&Msg{Type: Tversion, Tag: NOTAG, Msize: 8192, Version: "9P2000" + strings.Repeat("x", int(sz)-13-6)}, false)
+		x.Probe("oversize-frame-is-a-complete-tversion")
+	} else if body > 0 && sz > 7 {
 		// part of the announced frame follows: it must not be buffered until complete, nor executed
 		b = append(b, Encode(&Msg{Type: Tclunk, Tag: 9, Fid: 424242}, peer.Dotu)[7:]...)
 		for len(b) < body+7 {
@@ -719,6 +729,9 @@ func (st *c12Sys) badFrame(sc, by *SConn, nm int64, byReply **Recvd) {
 		if in.Req != nil {
 			x.Violate("m4-executed", "a request (%s) was executed from a frame announcing size %d with msize %d", in.Op, sz, nm)
 		}
+	}
+	if len(peer.Recv) > nrecv && sz > uint32(nm) {
+		x.Violate("m4-executed", "a frame of type %d announcing size %d with msize %d was answered (%v): it was executed, not dropped", typ, sz, nm, peer.Recv[len(peer.Recv)-1].M)
 	}
 	*byReply = by.Peer.Call(&Msg{Type: Tversion, Tag: NOTAG, Msize: 8192, Version: "9P2000"})
 }
